@@ -454,6 +454,31 @@ func isFuncName(c Case, p string) bool {
 func classify(c Case) (bool, []string) {
 	var cls []string
 	add := func(s string) { cls = append(cls, s) }
+	for _, a := range c.Attrs {
+		xs := []*Expr{a.X}
+		for _, p := range a.Pairs {
+			xs = append(xs, p.X)
+		}
+		for _, x := range xs {
+			if x != nil {
+				sp := x.Sp
+				if sp == "" {
+					sp = "spaced"
+				}
+				add("spelling:expr-" + sp)
+				add("spelling:op " + x.Op)
+			}
+		}
+		if a.Upper {
+			add("spelling:upper-case-name(" + a.Kind + ")")
+		}
+		if a.Quote != "" {
+			add("spelling:quote-" + a.Quote)
+		}
+		if a.Obj != "" {
+			add("spelling:object-" + a.Obj)
+		}
+	}
 	if c.Entry == "" {
 		add("entry:legacy(RenderString | Load.Fill.Render)")
 	} else {
@@ -1086,6 +1111,13 @@ func coreForms() []form {
 				{Key: "k3", Src: "tern", Arg: "nope", Neg: true, Alt: "path", Then: x, Else: "other"},
 				{Key: "k4", Src: "tern", Arg: "yes", Neg: true, Alt: "str", Then: "x", Else: ""}}}}
 		}},
+		{"style-case-static-upper+obj", func(x string) []Attr {
+			return []Attr{st("style", "COLOR: red ; Width : 1px; --X: 1; Font-Size: 9px"), {Kind: "obj", Name: "style", Pairs: []Pair{
+				{Key: "color", Src: "path", Arg: x}, {Key: "fontSize", Src: "str", Arg: "12px"}, {Key: "--x", Q: true, Src: "str", Arg: "2"}}}}
+		}},
+		{"style-case-static-lower+bind-upper", func(x string) []Attr {
+			return []Attr{{Kind: "bind", Name: "style", Text: "upstyle"}, st("style", "color: red; width: 1px; --myvar: 1; padding: 2px"), {Kind: "show", Text: x}}
+		}},
 		{"display-static-none+show", func(x string) []Attr {
 			return []Attr{st("style", "color: blue; display: none"), {Kind: "show", Text: x}}
 		}},
@@ -1156,7 +1188,7 @@ func corePlacements() []placement {
 func baseData(x vals.V) map[string]vals.V {
 	return map[string]vals.V{
 		"x": x, "other": vals.Str("o"), "five": vals.Int(5), "yes": vals.Bool(true), "chainoff": vals.Bool(false),
-		"markup": vals.Str("<b>h</b>"), "plain": vals.Str("txt"), "rich": vals.Str("url(https://x.test/r.png)"), "imp": vals.Str("red !important"), "quoted": vals.Str("'Open Sans', serif"), "dnone": vals.Str("width: 1px; display: none"), "nope": vals.Bool(false), "esc": vals.Str(`"x\";y"`),
+		"markup": vals.Str("<b>h</b>"), "plain": vals.Str("txt"), "rich": vals.Str("url(https://x.test/r.png)"), "imp": vals.Str("red !important"), "quoted": vals.Str("'Open Sans', serif"), "dnone": vals.Str("width: 1px; display: none"), "upstyle": vals.Str("COLOR: blue; Width: 2px; --MyVar: 3"), "nope": vals.Bool(false), "esc": vals.Str(`"x\";y"`),
 		forList: vals.List("[]any", vals.Str("i1"), vals.Str("i2")),
 	}
 }
@@ -1165,7 +1197,7 @@ func baseData(x vals.V) map[string]vals.V {
 // display declarations, ternaries) rather than the value table.
 func extendedForm(name string) bool {
 	return strings.HasPrefix(name, "style-rich") || strings.HasPrefix(name, "style-semicolon") || strings.HasPrefix(name, "display-") ||
-		strings.HasPrefix(name, "style-escape") || strings.HasSuffix(name, "-ternary")
+		strings.HasPrefix(name, "style-escape") || strings.HasSuffix(name, "-ternary") || strings.HasPrefix(name, "style-case")
 }
 
 func enumerate(rec *ev.Rec, f *findings, shard, shards int) (int, bool) {
@@ -1248,6 +1280,124 @@ func enumerate(rec *ev.Rec, f *findings, shard, shards int) (int, bool) {
 					d["p"] = pv
 					c := Case{Tag: "p", Attrs: attrs, Data: d}
 					pl.apply(&c)
+					each(c)
+					if !ok {
+						return n, false
+					}
+				}
+			}
+		}
+	}
+	// spelling: every operator x spaced / tight / word x operands x position x name case / quoting
+	type operands struct {
+		a, b vals.V
+		lit  string
+	}
+	for _, op := range exprOps {
+		var sets []operands
+		switch op {
+		case "&&", "||":
+			for _, a := range []bool{true, false} {
+				for _, b := range []bool{true, false} {
+					sets = append(sets, operands{a: vals.Bool(a), b: vals.Bool(b)})
+				}
+			}
+		case "!":
+			sets = []operands{{a: vals.Bool(true)}, {a: vals.Bool(false)}}
+		case "??":
+			sets = []operands{{a: vals.Nil(), lit: "dflt"}, {a: vals.Missing(), lit: "dflt"}, {a: vals.Str("x"), lit: "dflt"}}
+		default:
+			sets = []operands{{a: vals.Int(0), lit: "1"}, {a: vals.Int(1), lit: "1"}, {a: vals.Int(2), lit: "1"}}
+		}
+		for _, sp := range exprSps {
+			for _, set := range sets {
+				x := &Expr{Op: op, A: "opa", B: set.lit, Sp: sp}
+				if op == "&&" || op == "||" {
+					x.B = "opb"
+				}
+				positions := [][]Attr{
+					{{Kind: "bind", Name: "title", Text: "opa", X: x}},
+					{{Kind: "vbind", Name: "data-next", Text: "opa", X: x}, {Kind: "static", Name: "data-next", Text: "st"}},
+					{{Kind: "static", Name: "class", Text: "s1"}, {Kind: "obj", Name: "class", Pairs: []Pair{{Key: "k1", Src: "expr", Arg: "opa", X: x}}}},
+					{{Kind: "static", Name: "style", Text: "width: 9px; color: blue"}, {Kind: "obj", Name: "style", Pairs: []Pair{{Key: "width", Src: "expr", Arg: "opa", X: x}}}},
+					{{Kind: "static", Name: "style", Text: "color: blue"}, {Kind: "show", Text: "opa", X: x}},
+				}
+				for _, pos := range positions {
+					for vi, variant := range []struct {
+						upper bool
+						quote string
+					}{{false, ""}, {true, "'"}, {false, "none"}} {
+						for _, pl := range corePlacements() {
+							if pl.name != "div" && pl.name != "v-for" {
+								continue
+							}
+							attrs := []Attr{{Kind: "static", Name: "lang", Text: "en"}, marker()}
+							for _, a := range pos {
+								a.Upper = variant.upper
+								if a.Kind != "obj" {
+									a.Quote = variant.quote
+								} else {
+									a.Obj = objStyles[(vi+len(sp))%len(objStyles)]
+								}
+								attrs = append(attrs, a)
+							}
+							d := baseData(vals.Str("x"))
+							if set.a.K != "missing" {
+								d["opa"] = set.a
+							}
+							if x.B == "opb" {
+								d["opb"] = set.b
+							}
+							c := Case{Tag: "p", Attrs: attrs, Data: d}
+							pl.apply(&c)
+							each(c)
+							if !ok {
+								return n, false
+							}
+						}
+					}
+				}
+			}
+		}
+	}
+	// spelling of the attributes themselves: every basic form with upper-case names, single-quoted
+	// and unquoted values, and the object-syntax layouts
+	for _, fm := range coreForms() {
+		if extendedForm(fm.name) {
+			continue
+		}
+		for vi, variant := range []struct {
+			upper      bool
+			quote, obj string
+		}{{true, "", ""}, {false, "'", "tight"}, {false, "none", "comma"}, {true, "'", "lines"}, {true, "none", "tight"}} {
+			for _, v := range []vals.V{vals.Str("x"), vals.Bool(false), vals.Int(5)} {
+				for _, pl := range corePlacements() {
+					switch pl.name {
+					case "div", "v-if", "slot", "v-for":
+					default:
+						continue
+					}
+					if (vi+len(pl.name))%2 == 1 && !run.Thorough() {
+						continue
+					}
+					attrs := []Attr{{Kind: "static", Name: "lang", Text: "en"}, marker()}
+					attrs = append(attrs, fm.attrs("x")...)
+					attrs = append(attrs, Attr{Kind: "static", Name: "data-b", Text: "z w"})
+					for i := range attrs {
+						attrs[i].Upper = variant.upper
+						if attrs[i].Kind == "obj" || attrs[i].Kind == "vobj" {
+							attrs[i].Obj = variant.obj
+						} else {
+							attrs[i].Quote = variant.quote
+						}
+					}
+					c := Case{Tag: "p", Attrs: attrs, Data: baseData(v)}
+					pl.apply(&c)
+					for i := range c.Attrs {
+						if c.Attrs[i].Kind == "dir" {
+							c.Attrs[i].Upper = variant.upper
+						}
+					}
 					each(c)
 					if !ok {
 						return n, false
@@ -1581,7 +1731,9 @@ var (
 		{Key: "--myVar", Q: true}, {Key: "margin-top", Q: true}, {Key: "display"}, {Key: "padding"}, {Key: "color", Q: true}}
 	staticDecls = [][2]string{{"color", "blue"}, {"padding", "1px"}, {"width", "3px"}, {"font-size", "9px"}, {"display", "block"}, {"--x", "1"}, {"background-color", "white"}, {"margin-top", "4px"},
 		// the style's own display declarations: kept whatever v-show says, unless v-show is falsy
-		{"display", "none"}, {"display", "flex"}, {"DISPLAY", "none"}, {"display", " none "}, {"display", "inline-block"},
+		{"display", "none"}, {"display", "flex"}, {"DISPLAY", "none"},
+		// property names are case-insensitive (custom properties are not): a bound lower-case property replaces these
+		{"COLOR", "blue"}, {"Width", "3px"}, {"Font-Size", "9px"}, {"BACKGROUND-COLOR", "white"}, {"--X", "upper"}, {"--MyVar", "mixed"}, {"display", " none "}, {"display", "inline-block"},
 		// values with CSS punctuation: colons, !important, parentheses, commas, quotes, slashes
 		{"background-image", "url(https://x.test/y.png)"}, {"background", "url(//cdn.test:8080/a.png) no-repeat"}, {"color", "blue !important"},
 		{"font-family", "'Open Sans', serif"}, {"width", "calc(100% - 2px)"}, {"content", `"a:b"`}, {"--u", "url(http://h/p?q=r:s)"},
@@ -1595,6 +1747,7 @@ var (
 		vals.Str("background: url(http://h.test:8080/p.png) no-repeat; margin-top: 0"), vals.Str("content: 'k:v'; color: rgba(9, 8, 7, 0.1)"),
 		vals.Str("background: url(data:image/png;base64,BBBB); color: red"), vals.Str(`content: "x;y:z"; width: 2px`),
 		vals.Str(`content: "x\";y"; width: 2px`), vals.Str(`--e: 'a\\'; color: red`), vals.Str(`content: 'it\'s;ok'`),
+		vals.Str("COLOR: red; Width: 2px"), vals.Str("Font-Size: 3px; --X: 9"), vals.Str("PADDING : 0 ; color:red"),
 		vals.Str("display: none"), vals.Str("display:none;color:red"), vals.Str("width: 1px; display :  none ;"), vals.Str("display: flex"), vals.Str("DISPLAY: none; width: 1px")}
 	richStyleVals = []vals.V{vals.Str("url(https://x.test/v.png)"), vals.Str("red !important"), vals.Str("rgba(1, 2, 3, 0.5)"), vals.Str("calc(100% - 2px)"),
 		vals.Str("local('a b'), serif"), vals.Str("color 0.3s ease-in, width 1s"), vals.Str("1 / 2"), vals.Str("url(//h.test:81/a?b=c:d)"), vals.Str(`"Open Sans", serif`), vals.Str("'k:v'"),
@@ -1604,6 +1757,26 @@ var (
 	classStrs     = []vals.V{vals.Str("b1"), vals.Str("b1 b2"), vals.Str(""), vals.Str(" b3 "), vals.Int(5)}
 	styleVals     = []vals.V{vals.Str("red"), vals.Str("2px"), vals.Int(5), vals.Num("float64", "0.5"), vals.Str("bold"), vals.Num("uint16", "10")}
 )
+
+// expr draws an operator expression with fresh operand variables and a spelling.
+func (b *builder) expr(label string) *Expr {
+	t := b.t
+	x := &Expr{Op: pick(t, label+"-op", exprOps), Sp: pick(t, label+"-sp", exprSps)}
+	switch x.Op {
+	case "&&", "||":
+		x.A = b.newVar(vals.Bool(rapid.Bool().Draw(t, label+"-xa")))
+		x.B = b.newVar(vals.Bool(rapid.Bool().Draw(t, label+"-xb")))
+	case "!":
+		x.A = b.newVar(vals.Bool(rapid.Bool().Draw(t, label+"-xn")))
+	case "??":
+		x.A = b.newVar(pick(t, label+"-xq", []vals.V{vals.Nil(), vals.Missing(), vals.Str("x"), vals.Int(3)}))
+		x.B = "dflt"
+	default:
+		x.A = b.newVar(vals.Int(rapid.IntRange(0, 3).Draw(t, label+"-xi")))
+		x.B = strconv.Itoa(rapid.IntRange(0, 2).Draw(t, label+"-xl"))
+	}
+	return x
+}
 
 func (b *builder) pairValue(label string, p Pair, pool []vals.V, loopVar bool) Pair {
 	t := b.t
@@ -1625,7 +1798,10 @@ func (b *builder) pairValue(label string, p Pair, pool []vals.V, loopVar bool) P
 		}
 		return p
 	}
-	switch rapid.IntRange(0, 11).Draw(t, label+"-src") {
+	switch rapid.IntRange(0, 12).Draw(t, label+"-src") {
+	case 12:
+		p.Src, p.X = "expr", b.expr(label+"-x")
+		p.Arg = p.X.A
 	case 10:
 		// `!flag`
 		p.Src, p.Arg = "not", b.newVar(vals.Bool(rapid.Bool().Draw(t, label+"-nb")))
@@ -1793,6 +1969,10 @@ func genCase(f *findings, table []vals.V) func(t *rapid.T) Case {
 			}
 			bd := func() Attr {
 				k := pick(t, lbl+"-bk", []string{"bind", "vbind"})
+				if rapid.IntRange(0, 9).Draw(t, lbl+"-isx") >= 8 {
+					x := b.expr(lbl + "-x")
+					return Attr{Kind: k, Name: name, Text: x.A, X: x}
+				}
 				return Attr{Kind: k, Name: name, Text: b.anyPath(lbl+"-bv", loop)}
 			}
 			form := rapid.IntRange(0, 9).Draw(t, lbl+"-form")
@@ -1873,7 +2053,15 @@ func genCase(f *findings, table []vals.V) func(t *rapid.T) Case {
 				perm := rapid.Permutation(staticDecls).Draw(t, "style-decls")
 				sep := pick(t, "style-fmt", [][2]string{{": ", "; "}, {":", ";"}, {" : ", " ;"}})
 				var parts []string
+				spelled := map[string]string{}
 				for _, d := range perm[:n] {
+					// one static style does not repeat a property in two letter cases (width … Width):
+					// a bound value replaces the first of them only, the second stays and wins in CSS
+					// (reported to the lead; not generated)
+					if prev, dup := spelled[propName(d[0])]; dup && prev != d[0] {
+						continue
+					}
+					spelled[propName(d[0])] = d[0]
 					parts = append(parts, d[0]+sep[0]+d[1])
 				}
 				txt := strings.Join(parts, sep[1])
@@ -1920,7 +2108,10 @@ func genCase(f *findings, table []vals.V) func(t *rapid.T) Case {
 		} else if allStatic {
 			attrs = append(attrs, Attr{Kind: "show", Text: b.newVar(vals.Bool(rapid.Bool().Draw(t, "show-plain")))})
 		} else if dynamicOK && chance(t, "show", 45) {
-			switch rapid.IntRange(0, 3).Draw(t, "show-form") {
+			switch rapid.IntRange(0, 4).Draw(t, "show-form") {
+			case 4:
+				x := b.expr("show-x")
+				attrs = append(attrs, Attr{Kind: "show", Text: x.A, X: x})
 			case 0:
 				n := rapid.IntRange(0, 3).Draw(t, "show-n")
 				attrs = append(attrs, Attr{Kind: "show", Text: b.newVar(vals.Int(rapid.IntRange(0, 4).Draw(t, "show-gv"))), Gt: &n})
@@ -1937,18 +2128,18 @@ func genCase(f *findings, table []vals.V) func(t *rapid.T) Case {
 			attrs = append(attrs, Attr{Kind: "lit", Name: lperm[i], Text: pick(t, fmt.Sprintf("lit%d", i), litTexts)})
 		}
 		attrs = append(attrs, marker())
-		// an upper-case static property name next to a bound style is not generated: whether a bound
-		// `display` overrides a static `DISPLAY` (same property to CSS, different text) is left open
-		boundStyle := false
-		for _, a := range attrs {
-			if a.Name == "style" && a.Kind != "static" {
-				boundStyle = true
+		// spelling switches: none of them changes what an attribute means
+		for i := range attrs {
+			lbl := fmt.Sprintf("sp%d", i)
+			if rapid.IntRange(0, 9).Draw(t, lbl+"-upper") >= 8 {
+				attrs[i].Upper = true
 			}
-		}
-		if boundStyle {
-			for i, a := range attrs {
-				if a.Kind == "static" && a.Name == "style" {
-					attrs[i].Text = strings.ReplaceAll(a.Text, "DISPLAY", "display")
+			switch attrs[i].Kind {
+			case "obj", "vobj":
+				attrs[i].Obj = objStyles[rapid.IntRange(0, 6).Draw(t, lbl+"-obj")%len(objStyles)]
+			default:
+				if q := rapid.IntRange(0, 9).Draw(t, lbl+"-quote"); q >= 7 {
+					attrs[i].Quote = quotes[1+q%2]
 				}
 			}
 		}
